@@ -36,10 +36,14 @@ SUB = dict(  # the productive corner: views, .shape=, in-place
     CFG_1D, ops1=(), views=("all", "s1", "rev", "na", "r22", "flat", "T"), outs=(("add", None),), iops=("iadd", "imul"),
 )
 WORLDS["x4sub"] = (WORLDS["x4"][0], SUB)
+# explicit constant= on views of a constant base; memory owned by an ndarray subclass
+CFG_K = dict(CFG_1D, views=("all", "s1", "rev", "rsF", "rsT", "flat", "T"), ops1=("mul2",), outs=(("add", None), ("multiply", 0)))
+WORLDS["x4k"] = ([("x", (4,), 0, True), ("y", (3,), 5, False)], CFG_K)
+WORLDS["x4cls"] = ([("x", (4,), 0, False, "sub"), ("y", (3,), 5, False)], dict(CFG_1D, views=("all", "s1", "rev", "r22", "na"), ops1=("mul2",)))
 
 BOUNDS = {
-    "quick": [("x4", 4), ("x23", 3), ("x23F", 3)],
-    "thorough": [("x4", 4), ("x23", 4), ("x4c", 3), ("x23c", 3), ("x4sub", 5), ("x23F", 4)],
+    "quick": [("x4", 4), ("x23", 3), ("x23F", 3), ("x4k", 3), ("x4cls", 3)],
+    "thorough": [("x4", 4), ("x23", 4), ("x4c", 3), ("x23c", 3), ("x4sub", 5), ("x23F", 4), ("x4k", 4), ("x4cls", 4)],
 }
 
 
